@@ -254,13 +254,19 @@ class BPModel(object):
         return list(range(first, len(self.rows)))
 
 
-def load(text, with_component=True):
-    """Load model text on top of the ooaofooa schema and the predefined globals with the real loader.
-    Returns (ooaofooa metamodel, Domain built by mk_component)."""
+def loader_with(text):
+    """A loader holding the ooaofooa schema, the predefined globals and the given model text; build_metamodel() may be
+    called on it any number of times (each call gives an independent ooaofooa population)."""
     import copy
     base = base_loader()
     loader = copy.copy(base)                   # same schema statements, own statement list
     loader.statements = list(base.statements)
     loader.input(text, 'generated model')
-    mm = loader.build_metamodel()
+    return loader
+
+
+def load(text, with_component=True):
+    """Load model text on top of the ooaofooa schema and the predefined globals with the real loader.
+    Returns (ooaofooa metamodel, Domain built by mk_component)."""
+    mm = loader_with(text).build_metamodel()
     return mm, (ooaofooa.mk_component(mm) if with_component else None)
